@@ -1,5 +1,5 @@
 From Coq Require Import ZArith QArith Qround Qabs List Bool.
-From RV Require Export Base.PyNum Timing.Snapper Timing.Snap Timing.TimingMap Timing.Integrate Timing.Reseat Timing.ReseatSpec Generated.Tables.
+From RV Require Export Base.PyNum Timing.Snapper Timing.Snap Timing.TimingMap Timing.Integrate Timing.Reseat Timing.ReseatSpec Timing.ReseatDomain Generated.Tables.
 Import ListNotations.
 Open Scope Q_scope.
 
@@ -8,7 +8,7 @@ Definition tbl := Tables.snapper_table.
 Inductive c11case :=
 | CReseat (l : list bcs) (out : option (list bcs))                 (* exact stream: structural equality *)
 | CReseatR (l : list bcs) (out : option (list bcs))                (* rounded stream: no structural comparison *)
-| CReseatTie (l : list bcs) (out : option (list bcs))              (* two changes on one position: weaker oracle *)
+| CReseatTie (l : list bcs) (out : option (list bcs))              (* two or more changes on one position: wf_ties, oracle reseat_tiesb *)
 | CFromReseat (init : Q) (l : list bcs) (out : option (list bco))
 | CTmReseat (l : list bco) (out : option (list bco)).
 
@@ -37,12 +37,15 @@ Definition check (c : c11case) : verdict :=
          wf_ok := wf |}
   | CReseatTie l out =>
       let ls := sort_by bcs_lt l in
-      let wf := wf_ties ls in
+      (* the domain and the statement of Props.C11.C11_reseat_ties_correct_any_order: wf_ties + the input guard (a tie is a gap of
+         0 beats, inside every guard); reseat_tiesb (contains reseat_specb_ties) is sound for the clause-by-clause statement
+         ReseatTiesP on ANY output (C11_reseat_tiesb_sound) *)
+      let wf := wf_ties ls && reseat_guard THRESHOLD ls in
       {| corr_ok := match reseat l, out with
                     | ROk a, Some b => bcs_list_eqb a b
                     | RExc, None => true
                     | _, _ => false end;
-         spec_ok := negb wf || match out with Some r => reseat_specb_ties ls r | None => false end;
+         spec_ok := negb wf || match out with Some r => reseat_tiesb ls r | None => false end;
          wf_ok := wf |}
   | CReseatR l out =>
       {| corr_ok := true; spec_ok := true; wf_ok := true |}
